@@ -962,6 +962,26 @@ fn wrappers(ctx: &Ctx, c: &mut Collector) {
                 let k2 = k.into_format::<f64, u16>();
                 cmp!("Hsva/alpha-kept/u16", k2.alpha, e16, (a, b));
             }
+            // the non-hue components of the hue-bearing types are stimuli: float <-> u8 / u16 like any other component
+            {
+                let (e8a, e8b) = (<u8 as FromStimulus<f32>>::from_stimulus(a), <u8 as FromStimulus<f32>>::from_stimulus(b));
+                let d = |x: u8| <f32 as FromStimulus<u8>>::from_stimulus(x).to_bits();
+                macro_rules! hb {
+                    ($name:literal, $mk:expr, $c1:ident, $c2:ident) => {{
+                        let x = $mk;
+                        let q8 = x.into_format::<u8>();
+                        cmp!(concat!($name, "/f32->u8"), (q8.$c1, q8.$c2), (e8a, e8b), (a, b));
+                        let back = q8.into_format::<f32>();
+                        cmp!(concat!($name, "/u8->f32"), (back.$c1.to_bits(), back.$c2.to_bits()), (d(e8a), d(e8b)), (a, b));
+                    }};
+                }
+                hb!("Hsv", Hsv::new_srgb(120.0f32, a, b), saturation, value);
+                hb!("Hsl", Hsl::new_srgb(120.0f32, a, b), saturation, lightness);
+                hb!("Hwb", Hwb::new_srgb(120.0f32, a, b), whiteness, blackness);
+                hb!("Okhsl", palette::Okhsl::new(120.0f32, a, b), saturation, lightness);
+                hb!("Okhsv", palette::Okhsv::new(120.0f32, a, b), saturation, value);
+                hb!("Okhwb", palette::Okhwb::new(120.0f32, a, b), whiteness, blackness);
+            }
             let h = palette::Hsva::new_srgb(120.0f32, a, b, a).into_format::<f64, u8>();
             cmp!("Hsva/f32->f64,u8", (h.saturation.to_bits(), h.alpha), ((a as f64).to_bits(), <u8 as FromStimulus<f32>>::from_stimulus(a)), (a, b));
         }
